@@ -5,6 +5,7 @@ import Nsq.Model.Relay
 import Nsq.Model.ToFileTrace
 import Nsq.Model.ToFileName
 import Nsq.Model.ToFileDisc
+import Nsq.Model.ToFileMain
 import Nsq.Model.ToNsqLoop   -- relay sub-builder (C20 round 6): to_nsq main loop
 import Nsq.Model.RelayOpts   -- relay sub-builder (C20 round 6): option surface of nsq_to_http / nsq_to_nsq
 /-! Driver for engine E8 (tools): one operation per input line, one canonical answer line out.
@@ -14,6 +15,7 @@ import Nsq.Model.RelayOpts   -- relay sub-builder (C20 round 6): option surface 
 `rl …`  relay handlers (nsq_to_nsq, nsq_to_http)
 `tr …`  syscall-trace checker (FIN only after fsync)
 `fn …`  nsq_to_file file names (computeFilenameFormat / currentFilename)
+`mn …`  nsq_to_file main(): start-up checks (refused / started)
 `td …`  nsq_to_file TopicDiscoverer (stateful: new / upd / tick-err / hup / term)
 `lp …`  to_nsq main loop (throttle / EOF / Stop) under a given schedule      [relay block]
 `opt …` relay option surface: hdr / req / args / pass / wl / topic / hmark / nmark [relay block]
@@ -114,6 +116,7 @@ def stepLine (d : E8.D) (line : String) : String × E8.D :=
   | "tr" :: ws => (Nsq.Model.ToFileTrace.driverLine ws, d)
   | "trm" :: ws => (Nsq.Model.ToFileTrace.driverLineM ws, d)
   | "fn" :: ws => (Nsq.Model.ToFileName.driverLine ws, d)
+  | "mn" :: ws => (Nsq.Model.ToFileMain.driverLine ws, d)
   | "td" :: ws => let r := Nsq.Model.ToFileDisc.driverStep d.disc ws; (r.1, { d with disc := r.2 })
   -- ---- relay block (C20 round 6, sub-builder `relay`): add new ops only below this line ----
   | "lp" :: ws => (Nsq.Model.ToNsqLoop.driverLine ws, d)
